@@ -22,7 +22,9 @@ def variant_of_source():
     st = "1" if re.search(r"FSM_BM_DRY_RUN", body) else "0"
     m = re.search(r"static iwrc _fsm_blk_allocate_lw\(.*?\n}\n", txt, re.S)
     sy = "0" if re.search(r"sync_mmap\(pool,\s*fsm->bmoff\s*,", m.group(0) if m else "") else "1"
-    return lf + st + sy
+    m = re.search(r"static iwrc _fsm_deallocate\(.*?\n}\n", txt, re.S)
+    sh = "1" if re.search(r"length_blk\s*<\s*1", m.group(0) if m else "") else "0"
+    return lf + st + sy + sh
 
 
 def roundup(x, v):
@@ -57,7 +59,7 @@ def parse_out(out):
     s.T = [] if kv["T"] == "-" else [tuple(int(y) for y in x.split(":")) for x in kv["T"].split(",")]
     s.n = int(kv["n"])
     s.L = tuple(int(y) for y in kv["L"].split(":"))
-    s.B = [int(x) for x in kv["B"].split(".")]
+    s.B = None if kv["B"] == "?" else [int(x) for x in kv["B"].split(".")]
     s.M = tuple(int(y) for y in kv["M"].split(":"))  # bmoff, bmlen, hdrlen, bpow
     s.F = int(kv["F"])
     s.S = tuple(int(y) for y in kv["S"].split(":"))
@@ -154,6 +156,10 @@ class Oracle:
             self.bad("C10", "implementation harness answered `%s` to `%s`" % (out[:80], line))
             return len(self.v) - n0
         prev = self.st
+        if s is not None and not s.closed and s.B is None:
+            self.bad("C11", "%s: the bitmap area of the implementation is no longer readable (not mapped / outside the file)" % line)
+            self.bad("C10", "%s: the bitmap area of the implementation is no longer readable (not mapped / outside the file)" % line)
+            return len(self.v) - n0
         if c == "open":
             self.live, self.pat, self.asserts = {}, {}, 0
             self.cfg = (int(f[1]), f[4] == "1", f[5] == "1", f[6] == "1")
@@ -498,7 +504,10 @@ def gen_script(rng, impl, nops, focus, scripted=None):
         s = orc.st
         bsz = orc.bs()
         zr, _ = runs_of(s.B)
-        kind = rng.weighted([("unaligned", 2), ("header", 2), ("bitmap", 2), ("strictfree", 4 if orc.cfg[1] else 0)])
+        kind = rng.weighted([("unaligned", 2), ("header", 2), ("bitmap", 2), ("short", 2 if orc.live else 0),
+                             ("strictfree", 4 if orc.cfg[1] else 0)])
+        if kind == "short":  # less than one block: nothing can be released
+            return do("free %d %d invalid" % (rng.choice(sorted(orc.live)), rng.choice([0, 1, bsz - 1])))
         if kind == "unaligned":
             a = (rng.choice(sorted(orc.live)) if orc.live else 10 * bsz) + rng.range(1, bsz - 1)
             return do("free %d %d invalid" % (a, bsz))
@@ -681,8 +690,7 @@ def run_scripts(run, focus, nscripts, nops, nworkers=None):
 
 def account(run, focus, variant, results):
     """fold worker results into the Run: cases, distribution, T2 mismatches, violations of `focus`"""
-    run.cov["model_variant"] = {"00": "current source", "10": "after fsm-lfbk.diff", "01": "after fsm-strict-dealloc.diff",
-                                "11": "after both fixes"}.get(variant, variant)
+    run.cov["model_variant"] = "%s (1 = model follows the code after fixes/fsm-lfbk / fsm-strict-dealloc / fsm-syncbmap / fsm-dealloc-short .diff)" % variant
     nm = 0
     for r in results:
         if r["err"]:
